@@ -35,7 +35,7 @@ struct Faults {
   uint32_t eintr_close = 0; // close() returns -1/EINTR AFTER releasing the descriptor (Linux semantics: it must not be retried)
 };
 
-enum class Kind { REG, DIR, STREAM, URANDOM };
+enum class Kind { REG, DIR, STREAM, URANDOM, SYMLINK };
 
 struct Inode {
   Kind kind = Kind::REG;
@@ -47,6 +47,7 @@ struct Inode {
   bool writer_open = false; // STREAM: if true, an empty stream blocks (EAGAIN) instead of EOF
   std::map<std::string, std::shared_ptr<Inode>> entries; // DIR (sorted => deterministic)
   bool deny_remove = false; // unlink/rmdir of this node fails with EACCES
+  std::string link_target; // SYMLINK: absolute simulated path (may dangle)
   int urandom_mode = 0; // URANDOM byte generator
   uint64_t urandom_seed = 0;
   uint64_t urandom_pos = 0;
@@ -98,6 +99,9 @@ struct World {
   bool budget_exceeded = false;
   // hook invoked between directory-related calls (used for the concurrent deleter task)
   void (*between_dir_calls)() = nullptr;
+  // hook invoked on entry to every read (false) / write (true) of a simulated FILE* stream: the caller is
+  // "inside the system call" there, which is where another thread of the same process gets to run
+  void (*io_hook)(bool is_write) = nullptr;
   bool shuffle_readdir = false;
   bool own_empty_polls = false;
   // The calling process "has no descriptor 0": the next open() of a simulated path is handed the number 0
@@ -114,7 +118,9 @@ void calls_reset();
 // ---- building the world (harness side; never faulted)
 std::shared_ptr<Inode> mkfile(const std::string& path, const std::string& data);
 std::shared_ptr<Inode> mkdir_p(const std::string& path);
-std::shared_ptr<Inode> lookup(const std::string& path); // nullptr if absent
+std::shared_ptr<Inode> lookup(const std::string& path); // nullptr if absent; like lstat(): symbolic links in the directory part are followed, a link as last component is returned itself
+std::shared_ptr<Inode> lookup_follow(const std::string& path); // like stat(): follows a final link too (nullptr if it dangles)
+std::shared_ptr<Inode> mksymlink(const std::string& path, const std::string& target);
 bool exists(const std::string& path);
 // snapshot of all paths below `path` (relative names, sorted) with file contents hashed
 std::vector<std::string> snapshot(const std::string& path);
